@@ -103,6 +103,33 @@ def run(chk, w):
                 else:
                     chk.violation("C16-GUARD", f.name, "threads-while-running", c.loc(), "threads can be created while the library is already running")
 
+    # start while running does nothing: every call in a start routine that changes library state sits inside the !running guard
+    _wg = {}
+    def writes_globals(g, depth=0):
+        if g.name in _wg:
+            return _wg[g.name]
+        _wg[g.name] = False
+        r = False
+        for i in g.all_insts():
+            if i.op == "store" and i["ptr"].get("k") in ("global", "cexpr"):
+                r = True
+            elif i.op == "call" and i.callee in P.functions and P.functions[i.callee].blocks and depth < 6:
+                r = r or writes_globals(P.functions[i.callee], depth + 1)
+            if r:
+                break
+        _wg[g.name] = r
+        return r
+    for f in starts:
+        for c in f.calls():
+            g = P.functions.get(c.callee or "")
+            if g is None or not g.blocks or g is stop or not writes_globals(g):
+                continue
+            if guarded_by_running(f, c, False):
+                chk.ok("C16-GUARD", 1, {"start": f.name, "call": c.callee})
+            else:
+                chk.violation("C16-GUARD", f.name, "effect-while-running:" + c.callee, c.loc(),
+                              "%s (which changes library state) is called outside the !running guard: a start call while the library is running is not a no-op" % c.callee)
+
     # ---- JOIN
     chk.rule("C16-JOIN", "every thread handle that is created is joined in stop and forgotten afterwards (a stale handle is never joined again)")
     created = {}
